@@ -85,6 +85,17 @@ fn process(bits: u32, ext: u32, lb: u32, g: u32, ln: u32, cr: u32, f: &mut Vec<S
         }
         f.push(json!({"ev": "mono", "axis": axis, "conj_lo": conj, "conj_hi": c2, "prov_lo": prov, "prov_hi": p2}).to_string());
     }
+    // the proven estimate as a maximum over the admissible proximity parameters (hook): per-m levels for short traces, where
+    // the admissible range is small and its upper end matters
+    if ln <= 10 && g <= 16 {
+        for q in [1usize, 20, 36, 80, 255] {
+            let p = proof_for(bits, ext, lb, g, ln, q, 4, 31);
+            let m_max = winter_air::proof::verif::upper_m(1usize << ln);
+            let hi = (m_max + 1).min(1001);
+            let fm: Vec<u64> = (3..=hi).map(|m| winter_air::proof::verif::proven_security_for_m(p.options(), bits, 1usize << ln, m as usize)).collect();
+            f.push(json!({"ev": "prov_m", "bits": bits, "ext": ext, "lb": lb, "g": g, "ln": ln, "cr": cr, "q": q, "m_max": m_max, "f": fm, "level": prov[q - 1]}).to_string());
+        }
+    }
     // acceptance policy at the boundary of the level, for a few query counts
     for q in [1usize, 27, 80, 255] {
         let p = proof_for(bits, ext, lb, g, ln, q, 4, 31);
